@@ -217,6 +217,27 @@ def check(run):
                             run.count('deprecation_warnings_observed')  # informational: the property does not cover warnings
                         check_table(run, t, ftype, data, hdr, want, np.float32, desc)
                         run.nt((ftype, 'deprecated', lp, lv))
+                    # an explicit load list given together with the deprecated flags: the list decides (documented: flags ignored)
+                    for load, kw in ((['vel'], dict(load_pos=True)), (['pos'], dict(load_vel=True, load_pos=False)), (['pos', 'vel'], dict(load_vel=False))):
+                        desc = dict(file_type=ftype, N=N, load=load, deprecated=kw)
+                        run.ev()
+                        import contextlib
+                        import io
+
+                        with warnings.catch_warnings(), contextlib.redirect_stdout(io.StringIO()):
+                            warnings.simplefilter('ignore')
+                            t = RA.read_asdf(fn, load=load, verbose=bool(k % 2), **kw)
+                        check_table(run, t, ftype, data, hdr, load, np.float32, desc)
+                        run.nt((ftype, 'load+deprecated', tuple(load)))
+                else:
+                    # verbose mode only reports: same table
+                    run.ev()
+                    import contextlib
+                    import io
+
+                    with contextlib.redirect_stdout(io.StringIO()), contextlib.redirect_stderr(io.StringIO()):
+                        t = RA.read_asdf(fn, load=['pid', 'density'], verbose=True)
+                    check_table(run, t, ftype, data, hdr, ['pid', 'density'], np.float32, dict(file_type=ftype, N=N, verbose=True))
         # files with two known raw columns / none
         two = os.path.join(d, 'two.asdf')
         rv = rng.integers(0, 1 << 31, (5, 3)).astype(np.int32)
